@@ -278,6 +278,9 @@ impl Prop for C20 {
     fn choice_len(&self, _tier: Tier) -> (usize, usize) {
         (40, 600)
     }
+    fn shrink_iters(&self) -> u32 {
+        40
+    }
     fn workers(&self) -> usize {
         // each case spawns multi-threaded child processes; keep the machine oversubscribed but not thrashing
         4
